@@ -192,8 +192,10 @@ class Emitter:
                 sec = it[1]
                 self.w('<%%def name="%s(%s)"%s>' % (sec["name"], SIG_DECL[sec["sig"]], self.attrs(sec)))
                 defname = ("render_" + sec["name"]) if k == "def" else sec["name"]
-                sid = self.open_section(sec, k, defname, ambient)
-                self.items(sec["body"], self.inner_ambient(sec, ambient))
+                # a nested def that is only called from inside a later filtered block runs under that block's filter
+                amb = list(ambient) + list(sec.get("call_ambient") or [])
+                sid = self.open_section(sec, k, defname, amb)
+                self.items(sec["body"], self.inner_ambient(sec, amb))
                 self.close_section(sec, sid)
                 self.w("</%def>")
             elif k == "block":
@@ -362,10 +364,26 @@ def case_strategy(backends):
             elif k == "ndef":
                 name = "n%d" % ctr["n"]
                 ctr["n"] += 1
-                sec = gen_section(draw, backend, "ndef", name, env, ctr, tid)
-                out.append(["ndef", sec])
-                for _ in range(draw(st.integers(1, 2))):
-                    out.append(call_item(draw, name, sec["sig"], env["scope"]))
+                if draw(st.integers(0, 2)) == 0:
+                    # called only from inside a following anonymous block with a filter: the wrapper of the cached
+                    # nested def has to write to the buffer current at the call, not to the declaring callable's
+                    f = draw(st.sampled_from(["h", "fb", "h, fb", "trim"]))
+                    sec = gen_section(draw, backend, "ndef", name, dict(env, clean=False), ctr, tid)
+                    sec["call_ambient"] = [f]
+                    out.append(["ndef", sec])
+                    blk = {"name": None, "sig": "", "cached": draw(st.booleans()), "key": None, "args": {},
+                           "buffered": False, "filter": f, "body": []}
+                    if blk["cached"] and draw(st.booleans()):
+                        blk["key"] = gen_key(draw, st, env["scope"], ctr, tid)
+                    for _ in range(draw(st.integers(1, 2))):
+                        blk["body"].append(["t", draw(st.sampled_from(TEXTS))])
+                        blk["body"].append(call_item(draw, name, sec["sig"], env["scope"]))
+                    out.append(["ablock", blk])
+                else:
+                    sec = gen_section(draw, backend, "ndef", name, env, ctr, tid)
+                    out.append(["ndef", sec])
+                    for _ in range(draw(st.integers(1, 2))):
+                        out.append(call_item(draw, name, sec["sig"], env["scope"]))
             elif k == "ablock":
                 out.append(["ablock", gen_section(draw, backend, "ablock", None, env, ctr, tid)])
             elif k == "block":
@@ -578,6 +596,9 @@ class Machine:
             # the uncached reference never needs a backend; it gets the lock-free recording one so that a tree in
             # which cache_enabled=False is not honoured shows up in ref_log instead of dead-locking a real backend
             ts.ref = self._make(rec, self.tag + "/ref%d.html" % ts.tid, {}, False, ts.ref_log, ref=True)
+            # the same text with every cached="True" switched off: what "an uncached render" means literally
+            plain = dict(rec, text=rec["text"].replace('cached="True"', 'cached="False"'))
+            ts.plain = self._make(plain, self.tag + "/plain%d.html" % ts.tid, {}, True, ts.ref_log, ref=True)
             self.ts.append(ts)
 
     # -- construction --------------------------------------------------
@@ -820,6 +841,14 @@ class Machine:
                             "%s with cache_enabled=False: bodies executed %r, sentinels in output %r, backend calls %r "
                             "(every cached section must run, the backend must not be used); output %r"
                             % (what, rticks, want, [(r[0], r[1]) for r in ts.ref_log[nref:]], ref_out[:600]), ts)
+        pticks = []
+        plain_out = ts.plain.render_unicode(tick=pticks.append, **ctx)
+        if plain_out != ref_out or pticks != rticks or len(ts.ref_log) != nref:
+            raise self.fail("cache-disabled-differs-from-uncached",
+                            "%s: the template with cache_enabled=False renders %r (bodies %r), the same text with every "
+                            "cached=\"True\" replaced by cached=\"False\" renders %r (bodies %r, backend calls %r)"
+                            % (what, ref_out[:600], rticks, plain_out[:600], pticks,
+                               [(r[0], r[1]) for r in ts.ref_log[nref:]]), ts)
         page = ts.sections[0]
         if page["cached"]:
             if len(tree) != 1 or tree[0].sid != 0:
